@@ -71,6 +71,12 @@ TApi ==
     /\ pend' = emit'
     /\ l' = l + 1
 
+\* the user's global parameter map as it is after the run: never modified
+TGlobal ==
+    /\ More /\ Ev.k = "x-global" /\ pend = <<>>
+    /\ Ev.m = cfg.params
+    /\ l' = l + 1 /\ UNCHANGED <<vars, pend>>
+
 \* a silent server step
 TServer ==
     /\ pend = <<>>
@@ -119,7 +125,7 @@ TFaultedClose ==
     /\ l' = l + 1
     /\ UNCHANGED <<cfg, ssl, mwi, cparams, inq, eof, faulted, stmts, portals, skip, hq, h, pend>>
 
-TNext == TReset \/ TPreamble \/ TApi \/ TSend \/ TEof \/ TLate \/ TServer \/ TMatch \/ TIdle
+TNext == TReset \/ TPreamble \/ TGlobal \/ TApi \/ TSend \/ TEof \/ TLate \/ TServer \/ TMatch \/ TIdle
          \/ TFault \/ TFaultedCb \/ TFaultedClose
 
 TSpec == TInit /\ [][TNext]_tvars
